@@ -450,7 +450,16 @@ where
         let mut bytesmut = BytesMut::new();
         let max_frame_size = self.framed_write.encoder().max_frame_length();
         let mut encoder = amqp::FrameEncoder::new(max_frame_size);
+        let is_transfer = matches!(item.body, amqp::FrameBody::Transfer { .. });
         encoder.encode(item, &mut bytesmut)?;
+
+        // Only a transfer is continued in further frames (the encoder has laid them out
+        // one after the other). Any other performative that does not fit one frame
+        // cannot be sent at all: cutting it up at the frame size would put malformed
+        // frames on the wire and report success.
+        if !is_transfer && bytesmut.len() > max_frame_size {
+            return Err(Error::FramingError);
+        }
 
         while bytesmut.len() > max_frame_size {
             let partial = bytesmut.split_to(max_frame_size);
